@@ -610,6 +610,9 @@ func reopenArgs(s *sState, how string) ([]string, sOpts) {
 		} else {
 			roots[len(roots)-1] = "b6"
 		}
+	case "roots_codec": // same multihash, other codec / CID version
+		sib := map[string]string{"b1": "b2", "b2": "b1", "b3": "b1", "b4": "b17", "b13": "b2"}
+		roots[len(roots)-1] = sib[roots[len(roots)-1]]
 	case "roots_extra":
 		roots = append(roots, "b6")
 	case "roots_fewer":
